@@ -79,9 +79,19 @@ def synthetic_mixture(rng, name="SYN", comps=None, frost=None):
         comps = (synthetic_component(rng, name + "_1", frost=fr),
                  synthetic_component(rng, name + "_2", frost=(rng.random() < 0.25) if frost is None else frost))
     kind = rng.randrange(4)
+    # parameters that are EXACTLY zero are admissible and are where shortcuts hide: both energies zero (with or without the
+    # temperature-independent terms), one of them zero, a zero non-randomness factor (as the built-in H2O/MeOH has)
+    u = rng.random()
+    g12, g21 = rng.uniform(-4000.0, 9000.0), rng.uniform(-4000.0, 9000.0)
+    if u < 0.08:
+        g12 = g21 = 0.0
+    elif u < 0.12:
+        g12 = 0.0
+    elif u < 0.16:
+        g21 = 0.0
     nrtl = NRTLParameters(
-        g12=rng.uniform(-4000.0, 9000.0), g21=rng.uniform(-4000.0, 9000.0),
-        alpha12=rng.uniform(0.1, 0.6),
+        g12=g12, g21=g21,
+        alpha12=0.0 if rng.random() < 0.05 else rng.uniform(0.1, 0.6),
         alpha21=None if kind in (0, 2) else rng.uniform(0.1, 0.6),
         a12=0 if kind in (0, 1) else rng.uniform(-2.0, 3.0),
         a21=0 if kind in (0, 1) else rng.uniform(-2.0, 3.0))
